@@ -302,7 +302,52 @@ fn run_doc(root: &Path, k: usize, ext: &str, text: &str, probes: &[Val], files: 
         }
     };
 
+    // The other strict entry point, `log4rs::init_raw_config` (once per process: a child process), must take the
+    // same decision as create_raw_config; every third document.  A disagreement is reported as strict = 10 + the
+    // child's answer (0 Err, 1 Ok, 2 died).
+    static TURN: std::sync::atomic::AtomicUsize = std::sync::atomic::AtomicUsize::new(0);
+    let mut strict = strict;
+    if (strict == 0 || strict == 1) && TURN.fetch_add(1, std::sync::atomic::Ordering::SeqCst) % 3 == 0 {
+        let me = std::env::current_exe().expect("own path");
+        let child = std::process::Command::new(me)
+            .arg("init-raw")
+            .arg(ext)
+            .arg(&cfgb)
+            .stdin(std::process::Stdio::null())
+            .stderr(std::process::Stdio::null())
+            .output();
+        let answer = match child {
+            Ok(o) if o.stdout.starts_with(b"init-raw 1") => 1,
+            Ok(o) if o.stdout.starts_with(b"init-raw 0") => 0,
+            _ => 2,
+        };
+        if answer != strict {
+            strict = 10 + answer;
+        }
+    }
+
     Val::L(vec![Val::N(status), acc, Val::N(nerr), beh, refresh, Val::N(strict), lossy2])
+}
+
+/// `c14 init-raw <ext> <file>`: the process-global strict entry point
+fn init_raw_child(ext: &str, file: &str) -> i32 {
+    std::panic::set_hook(Box::new(|_| {}));
+    let text = std::fs::read_to_string(file).expect("document");
+    let r = std::panic::catch_unwind(|| match parse_raw(ext, &text) {
+        Some(Ok(raw)) => {
+            if log4rs::init_raw_config(raw).is_ok() {
+                1
+            } else {
+                0
+            }
+        }
+        _ => 0,
+    });
+    match r {
+        Ok(a) => println!("init-raw {}", a),
+        Err(_) => println!("init-raw 2"),
+    }
+    unsafe { libc::_exit(0) }
 }
 
 // ---------------------------------------------------------------------------------------------
@@ -439,5 +484,9 @@ fn run(case: &Val) -> Val {
 }
 
 fn main() {
+    let args: Vec<String> = std::env::args().collect();
+    if args.len() == 4 && args[1] == "init-raw" {
+        std::process::exit(init_raw_child(&args[2], &args[3]));
+    }
     vh::main_loop(run);
 }
